@@ -206,6 +206,7 @@ async fn run_lcase(c: &LCase, only_sql: Option<&str>) -> Result<LOut, String> {
     ctx.register_table("metrics", Arc::new(t)).map_err(|e| e.to_string())?;
     let qc = QueryConfig { l1_cache_size: 8 * 1024 * 1024, l2_cache_size: 0, l2_cache_dir: None, ..QueryConfig::default() };
     let warm = QueryNode::new(qc.clone(), store.clone(), meta.clone(), super::c03::storage_config()).await.map_err(|e| format!("QueryNode::new: {e}"))?;
+    let warm_s = QueryNode::new(qc.clone(), store.clone(), meta.clone(), super::c03::storage_config()).await.map_err(|e| format!("QueryNode::new: {e}"))?;
     let mut out = LOut { evaluations: 0, agree_rows: 0, both_reject: 0, outside_evals: 0, fails: Vec::new() };
     for q in queries(c) {
         if let Some(s) = only_sql {
@@ -219,10 +220,38 @@ async fn run_lcase(c: &LCase, only_sql: Option<&str>) -> Result<LOut, String> {
         };
         // the same statement on a node that has served the previous statements, and on a fresh node
         let fresh = QueryNode::new(qc.clone(), store.clone(), meta.clone(), super::c03::storage_config()).await.map_err(|e| format!("QueryNode::new: {e}"))?;
-        for (which, node) in [("warm-node", &warm), ("fresh-node", &fresh)] {
-            let got = match node.query(&q.sql).await {
-                Ok(b) => norm_by_name(&b, q.star),
-                Err(e) => Err(e.to_string()),
+        let fresh_s = QueryNode::new(qc.clone(), store.clone(), meta.clone(), super::c03::storage_config()).await.map_err(|e| format!("QueryNode::new: {e}"))?;
+        for (which, node) in [("warm-node", &warm), ("fresh-node", &fresh), ("stream-historical-phase@warm-node", &warm_s), ("stream-historical-phase@fresh-node", &fresh_s)] {
+            let got = if which.starts_with("stream") {
+                // the historical phase of a streaming subscription (no live batches are ever sent)
+                let (_tx, rx) = tokio::sync::broadcast::channel::<RecordBatch>(8);
+                let exec = cardinalsin::query::StreamingQueryExecutor::new(node.engine.clone(), meta.clone(), rx);
+                match exec.execute(&q.sql).await {
+                    Err(e) => Err(e.to_string()),
+                    Ok(mut out_rx) => {
+                        let mut batches = Vec::new();
+                        let mut err = None;
+                        loop {
+                            match tokio::time::timeout(std::time::Duration::from_millis(50), out_rx.recv()).await {
+                                Ok(Some(Ok(b))) => batches.push(b),
+                                Ok(Some(Err(e))) => {
+                                    err = Some(e.to_string());
+                                    break;
+                                }
+                                Ok(None) | Err(_) => break,
+                            }
+                        }
+                        match err {
+                            Some(e) => Err(e),
+                            None => norm_by_name(&batches, q.star),
+                        }
+                    }
+                }
+            } else {
+                match node.query(&q.sql).await {
+                    Ok(b) => norm_by_name(&b, q.star),
+                    Err(e) => Err(e.to_string()),
+                }
             };
             out.evaluations += 1;
             if q.outside {
@@ -326,7 +355,7 @@ pub fn label_space(rep: &mut Report, tier: &str) {
     rep.set(
         "label_sets",
         json!({"cases": cs.len(), "evaluations": evals, "naming_a_label_of_unselected_chunks_only": outside, "rows_agreed": agree_rows, "both_reject": both_reject,
-        "rule": "every sequence of 2 (3: in-memory + Timestamp column in quick, everywhere in thorough) chunk shapes out of 4 (label columns [host] / [region] / [host,region] / none) x both catalog back ends x both timestamp column types; windows selecting all / the first / the last chunk; plain, *, count(*), and per label: projection, IS [NOT] NULL, =, <>, GROUP BY, count(label); each statement on a node that served the previous ones and on a fresh node; reference = DataFusion over one MemTable of all rows under the union of the columns"}),
+        "rule": "every sequence of 2 (3: in-memory + Timestamp column in quick, everywhere in thorough) chunk shapes out of 4 (label columns [host] / [region] / [host,region] / none) x both catalog back ends x both timestamp column types; windows selecting all / the first / the last chunk; plain, *, count(*), and per label: projection, IS [NOT] NULL, =, <>, GROUP BY, count(label); each statement through QueryNode::query and through the historical phase of a streaming subscription, each on a node that served the previous statements and on a fresh node; reference = DataFusion over one MemTable of all rows under the union of the columns"}),
     );
     rep.push_sample(json!({"label_set_case": cs.get(cs.len() / 3), "queries": queries(&cs[cs.len() / 3]).iter().take(4).map(|q| q.sql.clone()).collect::<Vec<_>>()}));
     if agree_rows == 0 {
